@@ -166,4 +166,45 @@ theorem applyAll_perm (fields : List String) (es es' : List Env) (g : Env) (hp :
     | none => rfl
     | some v => rw [(key v).mpr hb] at ha; cases ha
 
+/-! ### decidable sufficient conditions for `WF` / `Consistent` (what the driver evaluates on the real exports) -/
+
+theorem wf_ofList (l : List (String × IMap)) (h : ∀ p ∈ l, (p.2.map (·.1)).Nodup) (f : String) :
+    ((ofList l f).map (·.1)).Nodup := by
+  unfold ofList
+  cases hf : l.find? (·.1 == f) with
+  | none => exact List.nodup_nil
+  | some p => exact h p (List.mem_of_find?_eq_some hf)
+
+theorem mem_of_lookup {m : IMap} {k v : String} (h : IMap.lookup m k = some v) : (k, v) ∈ m := by
+  induction m with
+  | nil => cases h
+  | cons p m ih =>
+    simp only [IMap.lookup] at h
+    by_cases hp : p.1 = k
+    · rw [if_pos hp] at h
+      injection h with h
+      have : p = (k, v) := by rw [← hp, ← h]
+      rw [this]; exact List.Mem.head _
+    · rw [if_neg hp] at h
+      exact List.Mem.tail _ (ih h)
+
+theorem ofList_mem {l : List (String × IMap)} {f : String} {q : String × String} (h : q ∈ ofList l f) :
+    ∃ p ∈ l, p.1 = f ∧ q ∈ p.2 := by
+  unfold ofList at h
+  cases hf : l.find? (·.1 == f) with
+  | none => rw [hf] at h; cases h
+  | some p =>
+    rw [hf] at h
+    exact ⟨p, List.mem_of_find?_eq_some hf, by simpa using List.find?_some hf, h⟩
+
+/-- a decidable sufficient condition for the consistency of two export lists -/
+theorem consistent_pair (l1 l2 : List (String × IMap))
+    (h : ∀ p1 ∈ l1, ∀ p2 ∈ l2, p1.1 = p2.1 → ∀ q1 ∈ p1.2, ∀ q2 ∈ p2.2, q1.1 = q2.1 → q1.2 = q2.2)
+    (f k v1 v2 : String) (h1 : IMap.lookup (ofList l1 f) k = some v1)
+    (h2 : IMap.lookup (ofList l2 f) k = some v2) : v1 = v2 := by
+  obtain ⟨p1, hp1, e1, m1⟩ := ofList_mem (mem_of_lookup h1)
+  obtain ⟨p2, hp2, e2, m2⟩ := ofList_mem (mem_of_lookup h2)
+  exact h p1 hp1 p2 hp2 (e1.trans e2.symm) _ m1 _ m2 rfl
+
+
 end Goml.Exports
